@@ -100,6 +100,18 @@ func (bpi *BucketPolicyItem) Validate(bucket string, iam IAMService) error {
 	if err := bpi.Effect.Validate(); err != nil {
 		return err
 	}
+	// a statement without a Principal, Action or Resource element (the
+	// unmarshalers only see the elements that are there) names nobody resp.
+	// nothing: it is not a statement of the policy language
+	if len(bpi.Principals) == 0 {
+		return policyErrInvalidPrincipal
+	}
+	if len(bpi.Actions) == 0 {
+		return policyErrInvalidAction
+	}
+	if len(bpi.Resources) == 0 {
+		return policyErrInvalidResource
+	}
 	if err := bpi.Principals.Validate(iam); err != nil {
 		return err
 	}
